@@ -39,6 +39,9 @@ theorem cube_length : cube.length = 6 := by decide +kernel
 theorem greys_length : greys.length = 24 := by decide +kernel
 theorem lin_length : lin.length = 256 := by decide +kernel
 theorem lin_div3 : ∀ x ∈ lin, (3 : Int) ∣ x := by decide +kernel
+theorem cube_range : ∀ x ∈ cube, 0 ≤ x ∧ x ≤ 3 * 2 ^ scaleBits := by decide +kernel
+theorem greys_range : ∀ x ∈ greys, 0 ≤ x ∧ x ≤ 3 * 2 ^ scaleBits := by decide +kernel
+theorem lin_range : ∀ x ∈ lin, 0 ≤ x ∧ x ≤ 3 * 2 ^ scaleBits := by decide +kernel
 theorem scale_ge : 25 ≤ scaleBits := by decide +kernel
 theorem levels_sorted : SurfModel.Color256.levelsInt.Pairwise (· < ·) := by decide +kernel
 
